@@ -58,6 +58,10 @@ func main() {
 	run(name, *seed, *n, *tier, *out, *stats, *replay, *mode)
 }
 
+// oracleOffset: cases done by earlier slices of this oracle run; oracles that cycle through kinds of cases by index
+// continue the cycle from here (an oracle that started every slice at index 0 only ever ran its first kinds)
+var oracleOffset int
+
 // streams that only exist in the build with the fake clock (go >= 1.25, bin/corr26)
 var needBubble = map[string]bool{"ket": true}
 
@@ -79,6 +83,7 @@ func run(name string, seedV int64, nV int, tierV, outV, statsV, replayV, modeV s
 			if done == 0 {
 				in = *replay
 			}
+			oracleOffset = done
 			c, fails := of(r, min(chunk, *n-done), *tier, in)
 			cases += c
 			nfails += len(fails)
